@@ -185,7 +185,11 @@ where
                 return None;
             }
             State::Parsing => {
-                self.increment_record();
+                // If the previous call failed (e.g. Error::BufferLimit), the search
+                // of the current record has to be resumed
+                if self.incomplete_pos.is_none() {
+                    self.increment_record();
+                }
             }
         };
 
@@ -257,7 +261,10 @@ where
             State::Parsing => {
                 // next() was previously called, the current record has
                 // already been returned -> start parsing the next one
-                self.increment_record();
+                // (unless next() failed and the search has to be resumed)
+                if self.incomplete_pos.is_none() {
+                    self.increment_record();
+                }
                 self.state = State::Positioned;
             }
             State::Positioned => {
